@@ -18,6 +18,9 @@ inductive Op
   -- the same operations against a target that is busy (a backlog of user messages) or already stopping:
   -- system messages keep their priority and are still handled while stopping, wherever the sender is
   | killBusy | poisonBusy | watchStopping
+  -- after the target was stopped and re-created under its name, a reference built afresh from address + path
+  -- reaches the new actor
+  | tellRespawned
   deriving Repr, DecidableEq
 
 /-- Built-in messages the operation puts on the wire (in either direction) for a target at `t`
@@ -74,6 +77,7 @@ def effect : Op → String
   | .poisonBusy => "target got 1/first from caller; target got 2/q from caller; target got 3/q from caller; target got 4/q from caller; target onkill killer=caller poison=true reason=why; target terminated"
   -- a Watch that reaches an actor which is already stopping (waiting for a child) still registers the watcher
   | .watchStopping => "caller onkilled ref=target"
+  | .tellRespawned => "target got 1/a from caller; target got 2/again from caller"
 
 /-- What remains observable when a built-in message of the operation is lost in decoding. -/
 def lost : Op → String
